@@ -19,6 +19,7 @@
     `posValue i` = the 1-based position `i + 1` as a value.
 -/
 import HotXL.Lemmas.Lookup
+import HotXL.Lemmas.Routes
 
 namespace HotXL.Props.C18
 open HotXL HotXL.Ops HotXL.Fn HotXL.Fn.Lookup HotXL.Lookup
@@ -699,5 +700,27 @@ example : ∃ (m : Value) (s : List Char),
 example : ∃ m, MATCH [.str "HELLO".toList, .arr [.str "abc".toList, .str "Hello".toList], .num (.int 0)] = .ok m ∧
     INDEX [.arr [.str "abc".toList, .str "Hello".toList], m] = .ok (.str "Hello".toList) :=
   ⟨.num (.int 2), by rfl, by rfl⟩
+
+/-! ## CHOOSE as a route (DESIGN.md 1.7): `CHOOSE(1,x)` hands the value of `x` on -/
+
+/-- In a formula, on a parser whose host did not redefine `CHOOSE`, `CHOOSE(1,x)` evaluates to what
+    `x` evaluates to — for every expression `x` with a known value. -/
+theorem choose_hands_on {env : Eval.Env} (hc : env.custom "CHOOSE".toList = none) {x : Syntax.Expr} {v : Value}
+    (hx : ErrorFlow.outcome env x = .ok v) (hno : Eval.isNoOpinion v = false) :
+    ErrorFlow.outcome env (.call "CHOOSE".toList .flat [.num (.int ['1']), x] []) = .ok v := by
+  have hch : CHOOSE [.num (.int 1), v] = .ok v := by
+    obtain ⟨_, h⟩ := choose_spec 1 [v] (by decide) (by simp) (by decide)
+    simpa using h
+  have hargs : ErrorFlow.outcomes env [.num (.int ['1']), x] = .ok [.num (.int 1), v] :=
+    ErrorFlow.outcomes_two (ErrorFlow.outcome_num_int env ['1']) hx
+  have h := ErrorFlow.outcome_builtin_call (b := CHOOSE) hc (by decide +kernel) (by rfl) hargs
+    (by rw [hch]; exact hno)
+  rw [hch] at h
+  exact h
+
+/-- non-vacuity: `CHOOSE(1,"ab")` -/
+example : ErrorFlow.outcome Eval.Env.empty (.call "CHOOSE".toList .flat [.num (.int ['1']), .str "ab".toList] []) =
+    .ok (.str "ab".toList) :=
+  choose_hands_on rfl rfl rfl
 
 end HotXL.Props.C18
